@@ -1,5 +1,6 @@
 """C15 - the encrypted transport delivers the exact message sequence or disconnects (structural part)."""
 from engine import *
+import re
 
 PH = 'lightning::ln::peer_handler::'
 PM = PH + 'PeerManager::'
@@ -382,6 +383,53 @@ def r15g(F):
 	out.append(Result('15.g', ok, ('ok:' if ok else 'shape:') + 'header-buffer-resized', 'do_read_event resizes the read buffer to the 18-byte encrypted length header when it returns to the header state (%d resize(18) site(s))' % len(rs), len(rs), where=F.where(fn)))
 	return out
 
+def r15h(F):
+	"""the node-id -> descriptor map is kept in step with the peer map: wherever a peer is removed from `peers`, its node_id_to_descriptor entry is
+	removed too, conditional on nothing but the peer having a node id (a stale entry makes every later connection of that node fail or panic
+	right after its handshake)"""
+	out = []
+	n = 0
+	REM = ('HashMap::remove', 'HashMap::retain', 'HashMap::drain', 'HashMap::clear', 'Entry::remove', 'HashMap::remove_entry')
+	for name in sorted(F.fns):
+		if not name.startswith(PM) or '{closure' in name:
+			continue
+		try:
+			fu = F.func(name)
+		except AnchorMissing:
+			continue
+		ex = None
+		peers, n2d = [], []
+		for b, ci in fu.calls():
+			f = norm(ci.get('f') or ci.get('t') or '')
+			if f.endswith(REM) and ci['args'] and b in fu.reach([0]):
+				ex = ex or Expr(fu)
+				k = leaf_key(ex.of_operand(ci['args'][0]))
+				if 'node_id_to_descriptor' in k:
+					n2d.append(b)
+				elif 'peers' in k and f.endswith(('HashMap::remove', 'HashMap::drain', 'HashMap::clear', 'HashMap::remove_entry', 'Entry::remove')) and 'peers_to_disconnect' not in k.split('(')[-1]:
+					peers.append(b)
+		if not peers:
+			continue
+		n += 1
+		short = name.rsplit('::', 1)[-1]
+		if not n2d:
+			out.append(Result('15.h', False, 'stale:node-id-map@' + short, '%s removes a peer from the peer map (line %s) but never touches node_id_to_descriptor' % (short, fu.line_of(peers[0])), 1, where=F.where(name)))
+			continue
+		base = set()
+		for b in peers:
+			base |= {k for sb, k, ln in control_conds(fu, b)}
+		extra = []
+		for b in n2d:
+			for sb, k, ln in control_conds(fu, b):
+				if k in base or k.startswith('disc:') or 'node_id_to_descriptor' in k:
+					continue
+				extra.append((ln, k[-70:]))
+		ok = not extra
+		out.append(Result('15.h', ok, ('ok:' if ok else 'stale:') + 'node-id-map@' + short, '%s: the node_id_to_descriptor entry is removed together with the peer, depending only on the peer having a node id%s' % (short, '' if ok else ' - extra condition(s) %s: when they do not hold the entry survives its peer, and the next connection from that node is refused (panics in debug builds) once its handshake completes' % extra[:2]), len(peers) + len(n2d), where=F.where(name, fu.line_of(n2d[0]))))
+	if n < 5:
+		out.append(Result('15.h', False, 'floor:peer-removal-sites', 'only %d functions removing peers found (expected >= 5)' % n, n))
+	return out
+
 RULES = [
 	('15.a', 'nothing is handed to the handlers before Init; second Init / non-Init first message / handler refusal end in Err', r15a),
 	('15.b', 'protocol handler methods are reached only downstream of the Init gate', r15b),
@@ -389,5 +437,6 @@ RULES = [
 	('15.d', 'AEAD discipline: same rotation threshold both ways, nonce +1 per operation (receive: after authentication), MAC failure is an error, size limits', r15d),
 	('15.f', 'outbound stream: partial writes resume at old offset + bytes accepted; a message is popped only when complete', r15f),
 	('15.g', 'inbound reassembly: header state restored after every decrypted body (also on ignore-and-continue arms), body state after every header', r15g),
+	('15.h', 'node_id_to_descriptor is cleaned wherever a peer is removed, unconditionally on the handshake state', r15h),
 	('15.e', 'messages are encrypted / decrypted only in NoiseState::Finished, entered only by an authenticated act', r15e),
 ]
